@@ -559,14 +559,28 @@ def _run_project(plan: dict, root: str, pdir: str, out: Outcome) -> None:
             obs = argv[argv.index(sl['b']) + 1:argv.index(sl['e'])]
             if obs != sl['args']:
                 what = 'arg-count' if len(obs) != len(sl['args']) else 'arg-bytes'
-                _violate(out, plan, mechanism(kind, mode, what, sl['args'], obs),
+                mech = mechanism(kind, mode, what, sl['args'], obs)
+                if sl.get('lang'):
+                    # per-language call histories: name the two ways a list can be wrong without any byte being altered
+                    import collections
+                    surplus = collections.Counter(obs) - collections.Counter(sl['args'])
+                    missing = collections.Counter(sl['args']) - collections.Counter(obs)
+                    others = {a for grp in (plan['compile'], plan['link']) for sls in grp.values() for o_ in sls
+                              if o_['pos'] == sl['pos'] and o_.get('lang') not in (None, sl['lang']) for a in o_['args']}
+                    if surplus and not missing:
+                        foreign = [a for a in surplus if a not in sl['args']]
+                        if foreign and all(a in others for a in foreign):
+                            mech = f'{kind}:{mode}:arg-leaked-from-other-language'
+                        elif not foreign:
+                            mech = f'{kind}:{mode}:arg-duplicated'
+                _violate(out, plan, mech,
                          dict(locus, diff=first_diff(sl['args'], obs),
                               layer='elem-roundtrip' if outname in elem_fail else None,
                               elem=elem_fail.get(outname)))
             else:
                 verified(sl['pos'], mode)
 
-    objname = {'e1': 'e1.p/main.c.o', 's1': 'libs1.a.p/lib.c.o', 'e2': 'e2.p/main.c.o'}
+    objname = {'e1': 'e1.p/main.c.o', 's1': 'libs1.a.p/lib.c.o', 'e2': 'e2.p/main.c.o', 'x1': 'x1.p/main.cpp.o'}
     for target, slots in plan['compile'].items():
         check_slots('compile', target, objname[target], slots)
     for target, slots in plan['link'].items():
@@ -825,7 +839,7 @@ def main() -> int:
     quick = chk.tier == 'quick'
     n_normal = int(os.environ.get('C03_PROJECTS', '48' if quick else '600'))
     rejects = REJECT_POS[:8] if quick else REJECT_POS * 3
-    budget = 100 if quick else 1020
+    budget = 85 if quick else 1020
     plans = gen.plan_params(chk.seed, chk.tier, n_normal, rejects)
     directed(chk, root)
 
